@@ -60,6 +60,9 @@ func (f *Defvar) Call(s *slip.Scope, args slip.List, depth int) (result slip.Obj
 	name := strings.ToLower(string(sym))
 	pkg, vname, private := slip.UnpackName(name)
 	if pkg == nil {
+		if 0 < len(vname) && vname[0] == ':' {
+			slip.PackagePanic(s, depth, &slip.KeywordPkg, "%s is a constant and thus can't be set", vname)
+		}
 		pkg = slip.CurrentPackage
 	}
 	if v, has := pkg.Get(vname); has && v != slip.Unbound {
